@@ -49,6 +49,12 @@ def ref_duration(s, e):
     return "%d:%02d:00" % divmod((em - sm) % 1440, 60)
 
 
+def DAYSET_SENTINEL():
+    from aioswitcher.schedule import Days
+
+    return {Days.SUNDAY, Days.MONDAY}
+
+
 def expect_record(zone, rec):
     slot, enabled, mask, state = rec[0], rec[1], rec[2], rec[3]
     start, end = struct.unpack("<II", rec[4:12])
@@ -150,10 +156,23 @@ def run_job(job):
     run = Runner(zone, date)
     base_day = run.now - 12 * 3600  # some instant about the start of the local day
     try:
+        nlist = [0]
+
         def listing(records, tag):
             case = {"kind": "list", "zone": zone, "date": job["date"], "records": [r.hex() for r in records]}
-            ok = judge_listing(res, case, zone, records, run.list(records))
+            out = run.list(records)
+            ok = judge_listing(res, case, zone, records, out)
             res.case(("list", zone, job["date"], tuple(records)), nontrivial=bool(records))
+            nlist[0] += 1
+            if ok and records and nlist[0] % 8 == 0:
+                # what a caller does with the parsed result must not change what the next listing returns
+                for sch in list(out[1].schedules):
+                    sch.days.clear()
+                    sch.days.update(DAYSET_SENTINEL())
+                out[1].schedules.clear()
+                case2 = dict(case, kind="relist")
+                if not judge_listing(res, case2, zone, records, run.list(records)):
+                    res.counters["relist_violations"] += 1
             return ok
 
         S0, E0 = base_day + 6 * 3600 + 15 * 60, base_day + 7 * 3600 + 45 * 60
@@ -229,9 +248,16 @@ def replay(case):
     date = datetime.date.fromisoformat(case["date"])
     run = Runner(case["zone"], date)
     try:
-        if case["kind"] == "list":
+        if case["kind"] in ("list", "relist"):
             records = [bytes.fromhex(r) for r in case["records"]]
-            judge_listing(res, case, case["zone"], records, run.list(records))
+            out = run.list(records)
+            if case["kind"] == "relist" and out[0] == "ok":
+                for sch in list(out[1].schedules):
+                    sch.days.clear()
+                    sch.days.update(DAYSET_SENTINEL())
+                out[1].schedules.clear()
+                out = run.list(records)
+            judge_listing(res, case, case["zone"], records, out)
         else:
             roundtrip(res, run, case)
     finally:
